@@ -8,6 +8,7 @@ package node
 //@ import "github.com/mosaicnetworks/babble/src/peers"
 //@ import hg "github.com/mosaicnetworks/babble/src/hashgraph"
 //@ import "github.com/mosaicnetworks/babble/src/net"
+//@ import "github.com/mosaicnetworks/babble/src/crypto/keys"
 
 // ------------------------------------------------------------------------------------------------
 // Fast-forward (C12, C14, C10)
@@ -42,3 +43,26 @@ package node
 //@ func (n *Node) fastForward() error
 //@   requires n != nil && n.core != nil && n.core.hg != nil && n.core.validator != nil && n.proxy != nil
 //@   call Restore assert[restore-after-check] __called("fastForward") && __lastret("fastForward", 0) == nil
+
+// ------------------------------------------------------------------------------------------------
+// Commit (C02, C09)
+
+//@ func (c *core) signBlock(block *hg.Block) (hg.BlockSignature, error)
+//@   requires c != nil && c.hg != nil && c.validator != nil && c.validator.Key != nil && block != nil && block.Signatures != nil
+//@   modifies block.Signatures[*], hg.G_blocks(c.hg.Store), hg.G_bodies(c.hg.Store), hg.G_fault(c.hg.Store)
+//@   ensures[signed] ret1 == nil ==> hg.BlockSignedBy(c.validator.Key, block, ret0.Signature) && ret0.Index == block.Body.Index
+//@   ensures[stored] ret1 == nil ==> __eq(hg.G_bodies(c.hg.Store)[block.Body.Index], block.Body)
+//@   ensures[body]   __eq(block.Body, old(block.Body))
+
+//@ func (c *core) processAcceptedInternalTransactions(roundReceived int, receipts []hg.InternalTransactionReceipt) error
+//@   trusted not yet verified here (C10 covers it separately); only its frame is used by commit
+//@   requires c != nil
+//@   modifies c.validators, c.peers, c.peerSelector, c.removedRound, c.lastPeerChangeRound, c.targetRound, c.promises[*], hg.G_pset(c.hg.Store), hg.G_psetOK(c.hg.Store)
+
+//@ func (c *core) commit(block *hg.Block) error
+//@   requires c != nil && c.hg != nil && c.validator != nil && c.validator.Key != nil && block != nil && block.Signatures != nil && c.selfBlockSignatures != nil && c.selfBlockSignatures.Items() != nil
+//@   callback proxyCommitCallback modifies nothing
+//@   call signBlock assert[sign-after-commit] __called("proxyCommitCallback") && __lastret("proxyCommitCallback", 1) == nil && __eq(block.Body.StateHash, commitResponse.StateHash) && __eq(block.Body.InternalTransactionReceipts, commitResponse.InternalTransactionReceipts)
+//@   ensures[stored]    ret0 == nil && __called("proxyCommitCallback") && __lastret("proxyCommitCallback", 1) == nil ==> __eq(hg.G_bodies(c.hg.Store)[block.Body.Index], block.Body)
+//@   ensures[state]     __called("proxyCommitCallback") && __lastret("proxyCommitCallback", 1) == nil ==> __eq(block.Body.StateHash, commitResponse.StateHash) && __eq(block.Body.InternalTransactionReceipts, commitResponse.InternalTransactionReceipts)
+//@   ensures[body-kept] block.Body.Index == old(block.Body.Index) && block.Body.RoundReceived == old(block.Body.RoundReceived) && block.Body.Timestamp == old(block.Body.Timestamp) && __eq(block.Body.FrameHash, old(block.Body.FrameHash)) && __eq(block.Body.PeersHash, old(block.Body.PeersHash)) && __eq(block.Body.Transactions, old(block.Body.Transactions)) && __eq(block.Body.InternalTransactions, old(block.Body.InternalTransactions))
